@@ -170,6 +170,37 @@ theorem blocking_shift (c2 : K) (w e : ℕ → K) (n : ℕ) (a : K) (hw : ∀ t,
   have := admitted_blocks n i hi
   exact err_shift w e n i a hw this.1 (by omega)
 
+/-! ## single-pass variance -/
+
+/-- the weighted second central moment from the first two raw moments -/
+theorem two_moment_identity (b x : ℕ → K) (N : ℕ) (hv : ∑ j ∈ range N, b j ≠ 0) :
+    ∑ j ∈ range N, b j * (x j - (∑ j ∈ range N, b j * x j) / ∑ j ∈ range N, b j) ^ 2
+      = ((∑ j ∈ range N, b j * x j ^ 2) / (∑ j ∈ range N, b j)
+          - ((∑ j ∈ range N, b j * x j) / ∑ j ∈ range N, b j) ^ 2) * ∑ j ∈ range N, b j := by
+  set V := ∑ j ∈ range N, b j with hV
+  set S := ∑ j ∈ range N, b j * x j with hS
+  have e : ∀ j, b j * (x j - S / V) ^ 2 = b j * x j ^ 2 - 2 * (S / V) * (b j * x j) + (S / V) ^ 2 * b j := by
+    intro j; ring
+  simp only [e]
+  rw [sum_add_distrib, sum_sub_distrib, ← mul_sum, ← mul_sum, ← hS, ← hV]
+  field_simp
+  ring
+
+/-- **single-pass form**: in exact arithmetic the per-size error computed from `Σ W E²/v1 − mean²` equals the two-pass
+definition.  The two differ in floating point only (cancellation of two numbers of size `mean²`); that part of the
+property is decided on the implementation by the large-offset and constant series of the tie, not by this theorem. -/
+theorem blockErr2_single_pass (w e : ℕ → K) (n i : ℕ)
+    (hv : ∑ j ∈ range (n / i), bw w i j ≠ 0) :
+    blockErr2 w e n i
+      = (((∑ j ∈ range (n / i), bw w i j * be w e i j ^ 2) / (∑ j ∈ range (n / i), bw w i j)
+          - ((∑ j ∈ range (n / i), bw w i j * be w e i j) / ∑ j ∈ range (n / i), bw w i j) ^ 2)
+          * ∑ j ∈ range (n / i), bw w i j)
+        / ((∑ j ∈ range (n / i), bw w i j) - (∑ j ∈ range (n / i), bw w i j ^ 2) / ∑ j ∈ range (n / i), bw w i j)
+        / (((n / i : ℕ) : K) - 1) := by
+  unfold blockErr2
+  simp only []
+  rw [two_moment_identity (fun j => bw w i j) (fun j => be w e i j) (n / i) hv]
+
 /-! ## jackknife = brute-force leave-one-out -/
 
 theorem jackknife_leave_one_out (num den : ℕ → K) (n i : ℕ) (hn : 2 ≤ n) (hi : i < n) :
